@@ -192,6 +192,8 @@ VERSIONS = {
     "T03:mut:addopt": ("T03", lambda t: t.children.append(Cfg("NEWI", "int", "newi", defaults=[("9", None)]))),
     "T05:mut:strdefault": ("T05", lambda t: _cfg(t, "MODE").defaults.__setitem__(1, ('"eco"', None))),
     "T07:mut:choicedefault": ("T07", lambda t: _find_choice(t, "CH").defaults.__setitem__(1, ("M1", None))),
+    "T16:mut:fwd2": ("T16", lambda t: _cfg(t, "EN").defaults.__setitem__(0, ("n", None)) or _cfg(t, "X").defaults.__setitem__(0, ("7", None))),
+    "T16:mut:fwd1": ("T16", lambda t: _cfg(t, "X").defaults.__setitem__(0, ("7", None))),
     "T04:mut:hexdefault": ("T04", lambda t: _cfg(t, "HX").defaults.__setitem__(0, ("0x30", None))),
     "T04:mut:floatdefault": ("T04", lambda t: _cfg(t, "FL").defaults.__setitem__(1, ("3.5", None))),
 }
